@@ -221,7 +221,23 @@ def run_case(ck, rng, root, ci, tier):
     import yaw
     from yaw.catalog.catalog import InconsistentPatchesError
     stress = {1: "lowz", 3: "turnover", 5: "lowz", 7: "turnover"}.get(ci % 8)
-    if stress:
+    if ci % 16 == 2:
+        stress = "hemispheres"
+    if stress == "hemispheres":
+        # stratum: a full-sky sample cut into two halves (antipodal centres, patch radii near pi / 2): radius + radius + reach
+        # exceeds pi, and the pairs across the boundary are a large part of the signal
+        import astropy.cosmology
+        from yaw import Configuration
+        cfgkw = dict(rmin=0.05, rmax=rng.choice([0.3, 0.5]), unit="rad", rweight=None, resolution=None,
+                     edges=[0.1, 0.6, 1.1], closed=rng.choice(["left", "right"]), cosmology="Planck15")
+        config, cosmology = Configuration.create(**cfgkw), astropy.cosmology.Planck15
+        nprng_h = np.random.default_rng(rng.randrange(2 ** 32))
+        axis = nprng_h.normal(size=3)
+        axis /= np.linalg.norm(axis)
+        vec_h = np.array([axis, -axis])
+        ra_h, dec_h = G.from_vec(vec_h)
+        field = dict(base="hemispheres", N=2, spread=np.pi, vec=G.to_vec(ra_h, dec_h), ra=ra_h, dec=dec_h, nprng=nprng_h)
+    elif stress:
         config, cfgkw, cosmology = make_stress_config(rng, stress)
         field = G.make_field(rng, num_patches=rng.choice([4, 5, 6]), spread=0.3)
     else:
@@ -237,7 +253,7 @@ def run_case(ck, rng, root, ci, tier):
     sizes = [rng.choice([max(N, 8), 25, nmax]) for _ in range(4)]
     ext = [rng.choice(["compact", "wide", "mixed"]) for _ in range(4)]
     if stress:
-        ext = ["compact"] * 4
+        ext = ["hemisphere" if stress == "hemispheres" else "compact"] * 4
     # weights: all samples weighted / none / mixed (weighted data against unweighted randoms and vice versa), by turns
     wmode = ["all", "mixed", "none", "mixed-reversed"][ci % 4]
     wflags = {"all": [True] * 4, "none": [False] * 4, "mixed": [True, False, True, False],
